@@ -28,6 +28,7 @@ type WorkloadView struct {
 	Ready      int
 	ByRevision map[string]int // short hash -> pods
 	ReadyByRevision map[string]int
+	CanaryPods, CanaryPodsReady int // pods of an extra canary Deployment (canary style)
 	Controlled bool // batchrelease control-info annotation present
 	InProgress bool // rollouts.kruise.io/in-progressing annotation present
 	Generation, ObservedGeneration int64
@@ -73,14 +74,48 @@ func ViewWorkload(w *World, sc *Scenario) *WorkloadView {
 		_, v.Controlled = d.Annotations[util.BatchReleaseControlAnnotation]
 		_, v.InProgress = d.Annotations[util.InRolloutProgressingAnnotation]
 		v.Exposure, v.KnobText = deploymentExposure(w, sc, d)
-		var pods []*corev1.Pod
+		// pods of the workload itself (through its ReplicaSets); pods of an extra canary Deployment are counted
+		// in ByRevision (they serve traffic) but not as "updated pods of the workload"
+		ownRS := map[string]bool{}
+		for _, o := range w.Store.PeekAll("replicasets") {
+			rs := o.(*apps.ReplicaSet)
+			for _, ref := range rs.OwnerReferences {
+				if ref.UID == d.UID {
+					ownRS[string(rs.UID)] = true
+				}
+			}
+		}
+		var pods, extra []*corev1.Pod
 		for _, o := range w.Store.PeekAll("pods") {
 			p := o.(*corev1.Pod)
-			if p.Namespace == sc.ns() && p.Labels["app"] == AppName {
+			if p.Namespace != sc.ns() || p.Labels["app"] != AppName {
+				continue
+			}
+			own := false
+			for _, ref := range p.OwnerReferences {
+				if ownRS[string(ref.UID)] {
+					own = true
+				}
+			}
+			if own {
 				pods = append(pods, p)
+			} else {
+				extra = append(extra, p)
 			}
 		}
 		fillPods(v, pods)
+		for _, p := range extra {
+			if p.DeletionTimestamp != nil {
+				continue
+			}
+			h := shortHash(podRevOf(p))
+			v.ByRevision[h]++
+			v.CanaryPods++
+			if isPodReady(p) {
+				v.ReadyByRevision[h]++
+				v.CanaryPodsReady++
+			}
+		}
 		return v
 	}
 	return nil
